@@ -339,8 +339,18 @@ def _polarity(e: ast.expr) -> Optional[int]:
 
 
 def _r4(chk, repo):
+    from .common import best_of, canon_fn
     for helper, want in HELPERS.items():
-        hf = repo.func(f"{GA}:{helper}")
+        src = repo.func(f"{GA}:{helper}")
+
+        def cands(_src=src):
+            yield _src
+            yield canon_fn(repo, None, _src, 2, rel=GA)          # branches moved into module-level private helpers: inlined again
+        best_of(chk, cands(), lambda t, v, _h=helper, _w=want: _r4_on(t, repo, _h, _w, v))
+
+
+def _r4_on(chk, repo, helper, want, hf):
+    if True:
         nl = nr = 0
         for a in walk_no_nested(hf):
             if isinstance(a, ast.Assign) and path_of(a.targets[0]) == "logdet":
